@@ -282,3 +282,20 @@ Proof.
   - injection Hs as <-; assumption.
   - injection Hs as <-; assumption.
 Qed.
+
+(* resources whose create callback is in progress count: live + in progress (+ slots lost to panicked
+   creates) never exceeds the limit; in particular while some thread is inside create there is room
+   for the resource it is making *)
+Lemma pool_bound_in_progress limit maxage scripts sched : (0 <= limit)%Z ->
+  let s := run (step limit maxage) sched (init scripts) in
+  ((ncreate s - ndestroy s) + nleak s <= limit)%Z /\
+  (forall t, t_pc (ts s t) = GCb -> ((ncreate s - ndestroy s) + 1 <= limit)%Z) /\
+  (forall t u, t_pc (ts s t) = GCb -> t_pc (ts s u) = GCb -> t = u).
+Proof.
+  intros H s. destruct (prun_I limit maxage scripts sched H) as [L1 _ (C1 & C2 & C3 & C4) _ _ _ _ _]. subst s.
+  repeat split.
+  - lia.
+  - intros t A. specialize (C4 t A). lia.
+  - intros t u A B. assert (lock (run (step limit maxage) sched (init scripts)) = Some t) by (apply L1; rewrite A; reflexivity).
+    assert (lock (run (step limit maxage) sched (init scripts)) = Some u) by (apply L1; rewrite B; reflexivity). congruence.
+Qed.
